@@ -1,6 +1,6 @@
 (* Corollaries of the refinement theorem quoted by props/C05.v and props/C16.v. *)
 From Coq Require Import List NArith.
-From Jamm Require Import Bytes Engine EngineAbs EnginePathFacts EngineTxInvFacts EngineRefines.
+From Jamm Require Import Bytes Engine EngineAbs EnginePathFacts EngineTxInvFacts EngineRefines EngineOwnDefs EngineOwnSpill EngineAllocInv.
 From Jamm Require Spec.
 Import ListNotations.
 Local Open Scope N_scope.
@@ -8,20 +8,21 @@ Local Open Scope N_scope.
 (* the page size is a performance parameter: two engines configured with different page sizes, fed the same transactions,
    commit the same contents (both equal the reference's) *)
 Theorem page_size_irrelevant : forall P1 P2 txs st1 st2, 0 < P1 -> 0 < P2 ->
-  txs_ok (init_db P1) txs -> txs_ok (init_db P2) txs ->
+  txs_ok' (init_db P1) txs -> txs_ok' (init_db P2) txs ->
   run_txs (init_db P1) txs = Ok st1 -> run_txs (init_db P2) txs = Ok st2 ->
   abs_db st1 = abs_db st2.
 Proof.
   intros P1 P2 txs st1 st2 H1 H2 T1 T2 R1 R2.
-  destruct (run_txs_refines_init P1 txs st1 H1 T1 R1) as [_ E1].
-  destruct (run_txs_refines_init P2 txs st2 H2 T2 R2) as [_ E2].
+  destruct (run_txs_refines_init' P1 txs st1 H1 T1 R1) as [_ E1].
+  destruct (run_txs_refines_init' P2 txs st2 H2 T2 R2) as [_ E2].
   now rewrite E1, E2.
 Qed.
 
 (* every state a history of transactions reaches satisfies the strict tree invariant (sorted keys inside their separators'
    intervals, separator = first key of the page, no page named twice inside a bucket) and the allocation invariant *)
-Theorem reachable_states_ok : forall P txs st', 0 < P -> txs_ok (init_db P) txs ->
-  run_txs (init_db P) txs = Ok st' -> db_strict st' /\ db_alloc_ok st'.
-Proof. intros P txs st' HP T R. exact (proj1 (run_txs_refines_init P txs st' HP T R)). Qed.
+Theorem reachable_states_ok : forall P txs st', 0 < P -> txs_ok' (init_db P) txs ->
+  run_txs (init_db P) txs = Ok st' ->
+  db_strict st' /\ alloc_ok st' (Rof st') /\ NoDup (live_of st' (Rof st')) /\ pend_le st'.
+Proof. intros P txs st' HP T R. exact (proj1 (proj1 (run_txs_refines_init' P txs st' HP T R))). Qed.
 Print Assumptions page_size_irrelevant.
 Print Assumptions reachable_states_ok.
